@@ -2,6 +2,7 @@ import Pyxv.Proofs.JValLemmas
 import Pyxv.Proofs.ToJsonLemmas
 import Pyxv.Proofs.FromJsonLemmas
 import Pyxv.Proofs.QStable
+import Pyxv.Proofs.UniqueKeysDump
 import Pyxv.Model.OpsToJson
 /-!
 # C16 — the JSON intermediate form is a faithful, reloadable representation: property theorems
@@ -243,6 +244,37 @@ theorem text_tree_roundtrip (f : Nat) (d : J) (e : El) (h : fromJson genCfg f d 
     ∃ e', (parse (print (toJson e []))).bind (fromJson genCfg f) = some e' ∧ toJson e' [] = toJson e [] := by
   rw [loads_dumps _ hu]
   exact dump_stable_tree f d e h
+
+/-- the dump of a survey built from a nest of Python dicts is itself a nest of Python dicts (keys unique in every
+    object) — the hypothesis of `text_tree_roundtrip`, derived instead of assumed. -/
+theorem dump_is_python_dict (f : Nat) (d : J) (e : El) (hu : UniqueKeys d) (h : fromJson genCfg f d = some e) :
+    UniqueKeys (toJson e []) :=
+  dump_uniqueKeys genCfg genCfg_secOk genCfg_qOk f d e hu h [] (by simp)
+
+/-- END TO END on the model, no hypothesis about keys: for every JSON text that `json.loads` accepts and whose value
+    the builder accepts, the built survey's dump written with `json.dumps`, read with `json.loads` and built again
+    dumps to the same dict. -/
+theorem loaded_survey_roundtrip (f : Nat) (text : Str) (d : J) (e : El) (hp : parse text = some d)
+    (h : fromJson genCfg f d = some e) :
+    ∃ e', (parse (print (toJson e []))).bind (fromJson genCfg f) = some e' ∧ toJson e' [] = toJson e [] :=
+  text_tree_roundtrip f d e h (dump_is_python_dict f d e (parse_uniqueKeys text d hp) h)
+
+example : ∃ d e e', parse ("{\"type\": \"survey\", \"name\": \"data\", \"name\": \"d2\", \"children\": " ++
+      "[{\"type\": \"phone number\", \"name\": \"p\", \"hint\": \"my \\u00e9\"}]}").toList = some d ∧
+    fromJson genCfg 3 d = some e ∧
+    (parse (print (toJson e []))).bind (fromJson genCfg 3) = some e' ∧ toJson e' [] = toJson e [] := by
+  have hp : (parse ("{\"type\": \"survey\", \"name\": \"data\", \"name\": \"d2\", \"children\": " ++
+      "[{\"type\": \"phone number\", \"name\": \"p\", \"hint\": \"my \\u00e9\"}]}").toList).isSome = true := by
+    decide +kernel
+  obtain ⟨d, hd⟩ := Option.isSome_iff_exists.mp hp
+  have he : (fromJson genCfg 3 d).isSome = true := by
+    have : ((parse ("{\"type\": \"survey\", \"name\": \"data\", \"name\": \"d2\", \"children\": " ++
+      "[{\"type\": \"phone number\", \"name\": \"p\", \"hint\": \"my \\u00e9\"}]}").toList).bind
+        (fromJson genCfg 3)).isSome = true := by decide +kernel
+    rw [hd] at this; exact this
+  obtain ⟨e, hee⟩ := Option.isSome_iff_exists.mp he
+  obtain ⟨e', h1, h2⟩ := loaded_survey_roundtrip 3 _ d e hd hee
+  exact ⟨d, e, e', hd, hee, h1, h2⟩
 
 /-- the same for any configuration satisfying the table facts (used for the example below) -/
 theorem dump_stable_tree_cfg (cfg : Cfg) (ok : SecOk cfg) (hq : QStable cfg) (f : Nat) (d : J) (e : El)
